@@ -347,8 +347,12 @@ def slice_(t, lo, hi):
             for s in segs:
                 l = length_of(s)
                 if l is None:
-                    # unknown-length segment: only fine if slice ends before it
+                    # unknown-length segment: fine if the slice ends before it, or starts inside/after
+                    # its beginning and it is where the slice ends up (python truncates at the end)
                     if pos >= b:
+                        break
+                    if s is segs[-1]:
+                        res.append(slice_(s, const(max(a - pos, 0)), const(b - pos)))
                         break
                     ok = False
                     break
@@ -373,6 +377,18 @@ def slice_(t, lo, hi):
                     nb = ia + b if ib is None else min(ib, ia + b)
                 return slice_(t[2], const(na), const(nb))
         return ('op', 'SLICE', t, const(a), const(b))
+    if is_op(t, 'CAT') and is_const(lo) and isinstance(lo[1], int) and lo[1] >= 0 and type_of(hi) == 'int':
+        # drop leading segments of known length that lie entirely before lo
+        segs = list(t[2:])
+        shift = 0
+        while segs:
+            l = length_of(segs[0])
+            if l is None or shift + l > lo[1]:
+                break
+            shift += l
+            segs.pop(0)
+        if shift:
+            return slice_(cat(*segs), const(lo[1] - shift), sub(hi, const(shift)))
     return ('op', 'SLICE', t, lo, hi)
 
 
@@ -459,30 +475,60 @@ def int_(b, order):
     return ('op', 'INT', b, order)
 
 
+def _num(t):
+    return is_const(t) and isinstance(t[1], (int, float)) and not isinstance(t[1], bool)
+
+
+def _add_nary(items):
+    c = 0
+    rest = []
+    for x in items:
+        if is_op(x, 'ADD'):
+            for y in x[2:]:
+                if _num(y):
+                    c += y[1]
+                else:
+                    rest.append(y)
+        elif _num(x):
+            c += x[1]
+        else:
+            rest.append(x)
+    rest.sort(key=repr)
+    if not rest:
+        return const(c)
+    if c != 0:
+        rest = [const(c)] + rest
+    if len(rest) == 1:
+        return rest[0]
+    return ('op', 'ADD') + tuple(rest)
+
+
 def _arith(name, pyf):
     def f(a, b):
-        if _all_const(a, b) and isinstance(a[1], (int, float)) and isinstance(b[1], (int, float)) \
-                and not isinstance(a[1], bool) and not isinstance(b[1], bool):
+        if _num(a) and _num(b):
             try:
                 return const(pyf(a[1], b[1]))
             except Exception:
                 return raise_('ArithmeticError')
-        if name in ('ADD', 'MUL'):
+        if name == 'ADD':
+            return _add_nary([a, b])
+        if name == 'MUL':
             x, y = sorted((a, b), key=repr)
-            if name == 'ADD':
-                if x == const(0):
-                    return y
-                if y == const(0):
-                    return x
+            if x == const(1):
+                return y
+            if y == const(1):
+                return x
             return ('op', name, x, y)
         if name == 'SUB':
-            if b == const(0):
-                return a
-            # (x + c) - c
+            if _num(b):
+                return _add_nary([a, const(-b[1])])
+            # (x + y) - y
             if is_op(a, 'ADD') and b in a[2:]:
-                rest = [z for z in a[2:]]
+                rest = list(a[2:])
                 rest.remove(b)
-                return rest[0]
+                return _add_nary(rest)
+            if a == b:
+                return const(0)
         return ('op', name, a, b)
     return f
 
@@ -532,7 +578,7 @@ def mod(a, b):
     # (INT(x,'big') + INT(y,'big')) mod N  ==  SK_ADD_INT(x, y)
     if b == CURVE_N and is_op(a, 'ADD'):
         xs = [_scalar_bytes(z) for z in a[2:]]
-        if len(xs) == 2 and all(z is not None for z in xs):
+        if len(a) == 4 and all(z is not None for z in xs):
             p, q = sorted(xs, key=repr)
             return ('op', 'SK_ADD_INT', p, q)
     return ('op', 'MOD', a, b)
@@ -605,7 +651,7 @@ def eq(a, b):
                                        (isinstance(a[1], (int, float)) and isinstance(b[1], (int, float)))))
     if tag(a) == 'enum' and tag(b) == 'enum':
         return const(a == b)
-    if tag(a) == 'cls' and tag(b) == 'cls':
+    if tag(a) in ('cls', 'ext', 'func') and tag(b) in ('cls', 'ext', 'func'):
         return const(a == b)
     if tag(a) in ('tuple', 'list') and tag(b) == tag(a):
         if len(a[1]) != len(b[1]):
